@@ -94,7 +94,7 @@ def _exec(self, s, st, frame):
             if isinstance(v, Num):
                 v.view_of = cur.view_of
         if isinstance(s.target, ast.Name) and isinstance(cur, Num) and cur.is_array and isinstance(v, Num):
-            self.events.append(('store', s, cur.shape, taint_of(v) | self.pc, frozenset(), self.cur.qname if self.cur else ''))
+            self.events.append(('store-aug', s, cur.shape, taint_of(v) | self.pc, frozenset(), self.cur.qname if self.cur else ''))
             self.written(s.target.id, cur, v, st, s)
         from .interp_expr import elementwise_seg
         elementwise_seg(s.op, cur, rhs, v)
